@@ -50,9 +50,8 @@ def run(R, env):
     for op in storage_ops_deep(prog, ictx, env.depth):
         if op["kind"] == "w" and ns_of(prog, op["args"][0]) == "config":
             k += 1
-            val = op["args"][2]
-            alts = struct_deltas(val)
-            good = all(base[0] == "agg" and shared.agg_field(base, "stopped") == ("const", "bool", True) and not d for base, d in alts)
+            alts = shared.write_value_alternatives(prog, op, "config") or []
+            good = bool(alts) and all(base[0] == "agg" and shared.agg_field(base, "stopped") == ("const", "bool", True) and not d for base, d in alts)
             R.ob("C10.R2", "instantiate:stopped", good, "Config saved at instantiation has stopped = %s, expected the constant true" % [fmt(shared.agg_field(b, "stopped") or b)[:80] for b, _ in alts], loc=op["loc"], fn="staking::contract::instantiate")
     R.floor("C10.R2", "CONFIG.save in instantiate", k, 1)
 
@@ -65,9 +64,9 @@ def run(R, env):
         for op in ws:
             if ns_of(prog, op["args"][0]) != "config":
                 continue
-            alts = struct_deltas(op["args"][2])
-            good = all(is_load(prog, base, "config", CRATE) and d == {("stopped",): ("const", "bool", True)} for base, d in alts)
-            R.ob("C10.R3", "CircuitBreaker:only-stopped", good, "saved config = %s, expected loaded config with only stopped := true" % fmt(op["args"][2])[:200], loc=op["loc"], fn=hk)
+            alts = shared.write_value_alternatives(prog, op, "config") or []
+            good = bool(alts) and all(is_load(prog, base, "config", CRATE) and d == {("stopped",): ("const", "bool", True)} for base, d in alts)
+            R.ob("C10.R3", "CircuitBreaker:only-stopped", good, "saved config = %s, expected loaded config with only stopped := true" % fmt(op.get("value") or op["args"][2])[:200], loc=op["loc"], fn=hk)
         for bb, t in success_terms(hctx):
             msgs = response_calls(t)
             R.ob("C10.R3", "CircuitBreaker:no-messages", not msgs, "halting emits messages: %s" % [m for m, _ in msgs], loc=hctx.body.loc(bb), fn=hk)
@@ -80,64 +79,31 @@ def run(R, env):
         R.ob("C10.R4", "ResumeContract:admin", ok, "resume succeeds without assert_admin: %s" % (off,), fn=hk, found=found)
         hctx = handler_ctx(prog, dctx, arm)
         ws = [op for op in storage_ops_deep(prog, hctx, env.depth) if op["kind"] == "w"]
-        kinds = sorted((ns_of(prog, o["args"][0]), o["op"]) for o in ws)
-        R.ob("C10.R4", "ResumeContract:write-set", kinds == [("config", "save"), ("state", "update")], "storage writes %s, expected [CONFIG.save, STATE.update]" % kinds, fn=hk, loc=ws[0]["loc"] if ws else None)
+        kinds = sorted((ns_of(prog, o["args"][0]), o["wop"]) for o in ws)
+        R.ob("C10.R4", "ResumeContract:write-set", kinds == [("config", "save"), ("state", "save")], "storage writes %s, expected one write of CONFIG and one of STATE" % kinds, fn=hk, loc=ws[0]["loc"] if ws else None)
         for op in ws:
             ns = ns_of(prog, op["args"][0])
-            if ns == "config" and op["op"] == "save":
-                alts = struct_deltas(op["args"][2])
-                good = all(is_load(prog, base, "config", CRATE) and d == {("stopped",): ("const", "bool", False)} for base, d in alts)
-                R.ob("C10.R4", "ResumeContract:config-delta", good, "saved config = %s, expected loaded config with only stopped := false" % fmt(op["args"][2])[:200], loc=op["loc"], fn=hk)
-            if ns == "state" and op["op"] == "update":
-                clo = op["args"][2]
-                res = closure_result(prog, clo, params={2: ("stored", "state")})
-                okd = False
-                detail = fmt(res)[:300] if res else "closure not resolved"
-                if res and res[0] == "agg" and res[2] == "Ok":
-                    alts = struct_deltas(res[3][0][2])
-                    want = {}
-                    for f in ("total_native_token", "total_liquid_stake_token", "total_reward_amount"):
-                        want[(f,)] = f
-                    okd = True
-                    for base, d in alts:
-                        if base != ("stored", "state") or set(d.keys()) != set(want.keys()):
+            if ns == "config" and op["wop"] == "save":
+                alts = shared.write_value_alternatives(prog, op, "config") or []
+                good = bool(alts) and all(is_load(prog, base, "config", CRATE) and d == {("stopped",): ("const", "bool", False)} for base, d in alts)
+                R.ob("C10.R4", "ResumeContract:config-delta", good, "saved config = %s, expected loaded config with only stopped := false" % fmt(op.get("value") or op["args"][2])[:200], loc=op["loc"], fn=hk)
+            if ns == "state" and op["wop"] == "save":
+                alts = shared.write_value_alternatives(prog, op, "state") or []
+                want = {(f,): f for f in ("total_native_token", "total_liquid_stake_token", "total_reward_amount")}
+                okd = bool(alts)
+                for base, d in alts:
+                    d = shared.effective_delta(prog, base, d, "state", CRATE)
+                    if d is None or set(d.keys()) != set(want.keys()):
+                        okd = False
+                        break
+                    for path, val in d.items():
+                        # value must be the message field of the same name (ABI name), through the dispatcher binding
+                        if not (val[0] == "field" and val[2] == want[path] and val[1][0] == "variant" and val[1][2] == "ResumeContract"):
                             okd = False
-                            break
-                        for path, val in d.items():
-                            # value must be the message field of the same name (ABI name), through the dispatcher binding
-                            if not (val[0] == "field" and val[2] == want[path] and val[1][0] == "variant" and val[1][2] == "ResumeContract"):
-                                okd = False
-                R.ob("C10.R4", "ResumeContract:state-delta", okd, "STATE.update closure yields %s; expected stored state with exactly total_native_token/total_liquid_stake_token/total_reward_amount := the message fields of the same names" % detail, loc=op["loc"], fn=hk)
+                R.ob("C10.R4", "ResumeContract:state-delta", okd, "STATE is rewritten as %s; expected stored state with exactly total_native_token/total_liquid_stake_token/total_reward_amount := the message fields of the same names" % fmt(op.get("value") or ("none",))[:300], loc=op["loc"], fn=hk)
     # R5 who writes Config.stopped
-    sites = {}
-    roots = {"instantiate": "staking::contract::instantiate", "migrate": "staking::contract::migrate", "sudo": "staking::contract::sudo", "reply": "staking::contract::reply"}
-    ctxs = {k: Ctx(prog.body(v)) for k, v in roots.items() if prog.body(v)}
-    for v, arm in table.items():
-        if arm["calls"]:
-            ctxs[v] = handler_ctx(prog, dctx, arm)
-    nconf = 0
-    for site, c in ctxs.items():
-        for op in storage_ops_deep(prog, c, env.depth):
-            if op["kind"] != "w" or ns_of(prog, op["args"][0]) != "config" or item_crate(op["args"][0]) != CRATE:
-                continue
-            if "migrations::states" in (storage_item_of(op["args"][0]) or ""):
-                continue  # legacy-layout item of an older version, not today's Config
-            nconf += 1
-            val = op["args"][2] if op["op"] == "save" else None
-            changed = True
-            if val is not None:
-                changed = False
-                for base, d in struct_deltas(val):
-                    if base[0] == "agg":
-                        sv = shared.agg_field(base, "stopped")
-                        if not (sv is not None and loaded_field(prog, sv, "config", ["stopped"], CRATE)):
-                            changed = True
-                    elif not is_load(prog, base, "config", CRATE):
-                        changed = True
-                    if any(p[0] == "stopped" for p in d):
-                        changed = True
-            if changed:
-                sites.setdefault(site, op)
+    chg, nconf = shared.field_change_sites(prog, env, CRATE, "config", ["stopped"])
+    sites = chg.get("stopped", {})
     for site, op in sites.items():
         R.ob("C10.R5", "stopped-writer:" + site, site in STOPPED_WRITERS, "Config.stopped may be changed from %s (%s), not in the reviewed table %s" % (site, op["fn"], sorted(STOPPED_WRITERS)), loc=op["loc"], fn=op["fn"])
     R.floor("C10.R5", "CONFIG write sites inspected", nconf, 6)
